@@ -150,7 +150,7 @@ def memload_views_unit(prefix):
                 la, lbx = R("a"), R("b")
                 src = ex.instantiate("MemoryOperand", kw=dict(offset=imm(SNum(lo, True)), base=la if lb_present else None, index=lbx if li_present else None, scale=SNum(sc, True)))
                 W = R(wn)
-                changes = {"": [W]}
+                changes = {"": {tostr(bstr_concat(pf, wn) if pf else wn): W}}  # keyed by the written operand's prefix + name
                 if cb == "tracked":
                     changes[full("a")] = {"name": ob, "value": SNum(vb, True)}
                 if ci == "tracked":
@@ -262,11 +262,11 @@ def update_changes_unit(res):
             change = {"none": {}, "unknown": {"a": None}, "const": {"a": {"name": "a", "value": SNum(dv, True)}},
                       "copy_b": {"a": {"name": "b", "value": SNum(dv, True)}}, "copy_c": {"a": {"name": "c", "value": SNum(dv, True)}}}[ch]
             sem = SObj("ArchSemantics")
-            written = [SObj("RegisterOperand", tag="w0"), SObj("RegisterOperand", tag="w1")]
+            written = [SObj("RegisterOperand", _name="w0", _prefix=None), SObj("RegisterOperand", _name="w1", _prefix="x")]
             other = SObj("MemoryOperand")
             iform = SObj("InstructionForm", _semantic_operands={"source": [SObj("RegisterOperand", tag="s")], "destination": [written[0], other], "src_dst": [written[1]]})
-            prev_views = [SObj("RegisterOperand", tag="earlier")]
-            state[""] = list(prev_views)
+            prev_views = {"earlier": SObj("RegisterOperand", tag="earlier")}
+            state[""] = dict(prev_views)
             seen = []
             ex.abstract["get_reg_changes"] = lambda ex_, so, a, kw: seen.append((a, kw)) or change
             ex.extra["state_b_before"] = state.get("b", "ABSENT")
@@ -287,8 +287,8 @@ def update_changes_unit(res):
             # far - in the pre-access pass only -; nothing is removed from it
             prev_views, written = p.extra["views"]
             views = v.get("")
-            want_views = prev_views + ([] if post_pass else written)
-            g.append(z3.BoolVal(isinstance(views, list) and len(views) == len(want_views) and all(a is b for a, b in zip(views, want_views))))
+            want_views = dict(prev_views, **({} if post_pass else {"w0": written[0], "xw1": written[1]}))  # keyed by prefix + name
+            g.append(z3.BoolVal(isinstance(views, dict) and set(views) == set(want_views) and all(views[k_] is want_views[k_] for k_ in want_views)))
             # b is never touched: same entry, same contents, and not shared with a's entry
             vb_now = v.get("b", "ABSENT")
             g.append(z3.BoolVal(vb_now is p.extra["state_b_before"]))
